@@ -87,11 +87,30 @@ func loadWorld(dir string, overlay map[string][]byte) (*World, error) {
 	w.Prog = prog
 	w.All = ssautil.AllFunctions(prog)
 	w.instances = map[*ssa.Function][]*ssa.Function{}
+	inMod := map[*ssa.Function]bool{}
+	var addOrigin func(f *ssa.Function)
+	addOrigin = func(f *ssa.Function) {
+		if f == nil || inMod[f] || !w.inModule(f) || isWrapper(f) {
+			return
+		}
+		inMod[f] = true
+		w.ModFns = append(w.ModFns, f)
+		for _, a := range f.AnonFuncs {
+			addOrigin(a)
+		}
+	}
 	for f := range w.All {
 		if o := f.Origin(); o != nil && o != f {
 			w.instances[o] = append(w.instances[o], f)
+			// generic origins (methods of generic types in particular) are not in AllFunctions
+			top := o
+			for top.Parent() != nil {
+				top = top.Parent()
+			}
+			addOrigin(top)
 		}
-		if w.inModule(f) {
+		if w.inModule(f) && !inMod[f] && !isWrapper(f) {
+			inMod[f] = true
 			w.ModFns = append(w.ModFns, f)
 		}
 	}
@@ -312,15 +331,68 @@ func (w *World) Callees(f *ssa.Function) []Edge {
 	return w.hybridOut[f]
 }
 
-// SiteCallees returns the callees of one call site.
+// SiteCallees returns the callees of one call site. Call sites inside a generic origin body
+// (which is not part of the call graph) are mapped to the same site of each instantiation.
 func (w *World) SiteCallees(ci ssa.CallInstruction) []*ssa.Function {
 	var out []*ssa.Function
-	for _, e := range w.Callees(ci.Parent()) {
-		if e.Site == ci {
-			out = append(out, e.Callee)
+	fn := ci.Parent()
+	if w.All[fn] {
+		for _, e := range w.Callees(fn) {
+			if e.Site == ci {
+				out = append(out, e.Callee)
+			}
+		}
+		return out
+	}
+	bi, ii := ci.Block().Index, idxOf(ci)
+	seen := map[*ssa.Function]bool{}
+	for _, inst := range w.InstancesDeep(fn) {
+		if len(inst.Blocks) != len(fn.Blocks) || bi >= len(inst.Blocks) || ii >= len(inst.Blocks[bi].Instrs) {
+			continue
+		}
+		ici, ok := inst.Blocks[bi].Instrs[ii].(ssa.CallInstruction)
+		if !ok || ici.Pos() != ci.Pos() {
+			continue
+		}
+		for _, e := range w.Callees(inst) {
+			if e.Site == ici && !seen[e.Callee] {
+				seen[e.Callee] = true
+				out = append(out, e.Callee)
+			}
 		}
 	}
 	return out
+}
+
+// InstancesDeep: instantiations of a generic origin function or of a closure nested in one.
+func (w *World) InstancesDeep(fn *ssa.Function) []*ssa.Function {
+	if fn.Parent() == nil {
+		return w.instances[fn]
+	}
+	idx := -1
+	for i, a := range fn.Parent().AnonFuncs {
+		if a == fn {
+			idx = i
+		}
+	}
+	var out []*ssa.Function
+	for _, pi := range w.InstancesDeep(fn.Parent()) {
+		if idx >= 0 && idx < len(pi.AnonFuncs) {
+			out = append(out, pi.AnonFuncs[idx])
+		}
+	}
+	return out
+}
+
+// Orig returns the generic origin of an instantiation (or the function itself).
+func Orig(f *ssa.Function) *ssa.Function {
+	if f == nil {
+		return nil
+	}
+	if o := f.Origin(); o != nil {
+		return o
+	}
+	return f
 }
 
 // Reach returns all functions reachable from the given roots over the hybrid graph,
@@ -441,4 +513,9 @@ func (w *World) isTestHelper(f *ssa.Function) bool {
 		return false
 	}
 	return strings.HasSuffix(w.Fset.Position(p).Filename, "_testing.go")
+}
+
+// isWrapper: compiler-generated forwarding function (promoted-method wrapper, bound method, thunk).
+func isWrapper(f *ssa.Function) bool {
+	return f.Synthetic != "" && !strings.HasPrefix(f.Synthetic, "instance of") && f.Synthetic != "package initializer"
 }
